@@ -4,3 +4,6 @@ package app
 
 // VerifAddToQuery exposes addToQuery.
 func VerifAddToQuery(query, add string) string { return addToQuery(query, add) }
+
+// VerifParseQueryString exposes parseQueryString.
+func VerifParseQueryString(q string) (string, []string) { return parseQueryString(q) }
